@@ -38,6 +38,7 @@ class PollFuture(_Future):
         )
 
         if delegate.cancelled():
+            self._me_delegate_cancelled()
             return
         if delegate.exception():
             copy_future_exception(delegate, self)
